@@ -67,7 +67,11 @@ func genClientPrograms(r *rand.Rand, relax Relax) [][]Op {
 			case 6:
 				ops = append(ops, Op{K: "rename", P: pick(), Q: pick()})
 			case 7:
-				ops = append(ops, Op{K: "remove", P: pick()})
+				if r.IntN(3) == 0 {
+					ops = append(ops, Op{K: "removeall", P: pick()})
+				} else {
+					ops = append(ops, Op{K: "remove", P: pick()})
+				}
 			case 8:
 				ops = append(ops, Op{K: "chmod", P: pick(), M: []uint32{0o600, 0o755, 0o640}[r.IntN(3)]})
 			case 9:
@@ -93,7 +97,7 @@ func scopeFilter(progs [][]Op) {
 	}
 	for ci, prog := range progs {
 		for oi, op := range prog {
-			if op.K != "rename" && op.K != "remove" {
+			if op.K != "rename" && op.K != "remove" && op.K != "removeall" {
 				continue
 			}
 			conflict := false
@@ -102,7 +106,16 @@ func scopeFilter(progs [][]Op) {
 					continue
 				}
 				for _, o := range other {
-					if (o.K == "create" || o.K == "open") && (related(op.P, o.P) || (op.Q != "" && related(op.Q, o.P))) {
+					if o.K != "create" && o.K != "open" {
+						continue
+					}
+					if op.K == "remove" {
+						// a non-recursive Remove can only ever take the entry itself (a
+						// directory with an open file below it is not empty)
+						if op.P == o.P {
+							conflict = true
+						}
+					} else if related(op.P, o.P) || (op.Q != "" && related(op.Q, o.P)) {
 						conflict = true
 					}
 				}
@@ -117,7 +130,7 @@ func scopeFilter(progs [][]Op) {
 func init() {
 	Register(&Check{
 		ID: "C11", Level: "exploration", Tech: "deterministic simulation: seeded cooperative scheduler over real goroutines (lock acquisition, goroutine start and drive-seam yields are scheduling points), exact deadlock detection, porcupine linearizability of the recorded history against RefFS, rebuild restart at the end; plus a free-running -race build of the same programs",
-		Rule:      "2-8 client programs of 1-4 API-level operations each (mkdir, mkdirall, create/write/close, open/read/close, rename, remove, chmod, stat, readdir) over shared and private paths run under a seeded schedule (stickiness and drive-seam preemption probability are swarm parameters); every call's invoke/return is stamped with a global sequence number; oracles: all clients finish (else the wait-for graph), no panic, the history plus the final observed tree is linearizable w.r.t. RefFS (porcupine, 20 s budget, 'unknown' is counted, not reported), and the final state equals a rebuild from the tape; race mode: the same programs free-running in a -race build; non-trivial = at least one context switch inside the run and >= 2 clients touching a shared path; distinct by (programs, context-switch hash)",
+		Rule:      "2-8 client programs of 1-4 API-level operations each (mkdir, mkdirall, create/write/close, open/read/close, rename, remove, removeall, chmod, stat, readdir) over shared and private paths run under a seeded schedule (stickiness and drive-seam preemption probability are swarm parameters); every call's invoke/return is stamped with a global sequence number; oracles: all clients finish (else the wait-for graph), no panic, the history plus the final observed tree is linearizable w.r.t. RefFS (porcupine, 20 s budget, 'unknown' is counted, not reported), and the final state equals a rebuild from the tape; race mode: the same programs free-running in a -race build; non-trivial = at least one context switch inside the run and >= 2 clients touching a shared path; distinct by (programs, context-switch hash)",
 		QuickRuns: 2500, QuickSecs: 60, ThoroughRuns: 120000, ThoroughSecs: 1500,
 		Assumptions: []string{"reads are whole-file single-call reads while finding KF6 (partially read handle keeps the drive) is open", "porcupine 'Unknown' verdicts are inconclusive and counted"},
 		Gen: func(r *rand.Rand, tier string, relax Relax) *Case {
@@ -193,8 +206,11 @@ func init() {
 					child = []Op{{K: "rename", P: "/t", Q: "/s/t"}}
 				}
 				parent := []Op{{K: "remove", P: "/s"}}
-				if r.IntN(2) == 0 {
+				switch r.IntN(3) {
+				case 0:
 					parent = []Op{{K: "rename", P: "/s", Q: "/u"}}
+				case 1:
+					parent = []Op{{K: "removeall", P: "/s"}}
 				}
 				c.Progs = append([][]Op{child, parent}, c.Progs[:min(len(c.Progs), 1+r.IntN(2))]...)
 				c.Ops = append(c.Ops, Op{K: "mkdir", P: "/s", M: 0o755}, Op{K: "writefile", P: "/t", D: &Data{Len: 10, Kind: "text", Tag: 0x7778}})
